@@ -71,6 +71,15 @@ type hBlock struct {
 
 type hInput struct {
 	Blocks []hBlock `json:"blocks"`
+	// BaseAt: the genesis file additionally holds a plain SDK BaseAccount (not an EthAccount) at the CREATE
+	// address of deployer B at nonce K.  Replay only (probe of an account type that does not implement
+	// EthAccountI); the generator never sets it.
+	BaseAt []hBaseAt `json:"base_at,omitempty"`
+}
+
+type hBaseAt struct {
+	B int    `json:"b"`
+	K uint64 `json:"k,omitempty"`
 }
 
 // hist is the run-time side of a history: what the ops created so far.
@@ -769,7 +778,7 @@ type genObs struct {
 }
 
 func genesisRunCase(id string, in hInput) []Case {
-	c := newChain(dbm.NewMemDB(), nil)
+	c := newChain(dbm.NewMemDB(), genesisBaseAccounts(in.BaseAt))
 	h := runHistory(c, in)
 	obs := genObs{Ops: h.log, Errs: h.errs, ModuleDiff: map[string]string{}, Sizes: map[string]int{}}
 	kb, _ := json.Marshal(in)
